@@ -50,6 +50,10 @@ def run_shard(shard, rec):
                 rec.case(fc.sig, nontrivial=True)
                 for rule, mech, msg in oracles.length_cc(fc, ref, t):
                     rec.violation(rule, mech, f"{fc.short()}\n{msg}", fc.replay())
+                if t.unstable:
+                    rec.violation("surplus-not-carried", "read-twice", f"{fc.short()}\n{t.unstable}", fc.replay())
+                if t.outcome[0] == "superfluous":
+                    rec.count("surplus_read_twice")
                 if t.outcome[0] in ("depleted", "superfluous"):
                     rec.count(f"cc_attr_{'set' if t.outcome[-1] is not None else 'none'}")
                 if fc.fault["kind"] == "cut":
@@ -76,3 +80,5 @@ def replay(r, rec):
     ref, t, kind = _strict.evaluate(case, rec, KINDS + ("ok",))
     for rule, mech, msg in oracles.length_cc(case, ref, t):
         rec.violation(rule, mech, msg, r)
+    if t.unstable:
+        rec.violation("surplus-not-carried", "read-twice", t.unstable, r)
